@@ -38,5 +38,6 @@ func TestWriteFindingReplays(t *testing.T) {
 	writeReplay(t, dir, "C01", "revocation", "finding-sst-unparsable-certificate.json", Case{EP: "microsoft.Parse", Src: "hostile", Data: BuildSST([][]byte{{0x30, 0x00}}, false)})
 	sst := []byte{0, 0, 0, 0, 'C', 'E', 'R', 'T', 32, 0, 0, 0, 1, 0, 0, 0, 0, 0, 0, 0x0c}
 	writeReplay(t, dir, "C01", "revocation", "finding-sst-huge-length.json", Case{EP: "microsoft.Parse", Src: "hostile", Data: sst})
+	writeReplay(t, dir, "C01", "ctx509", "finding-ctasn1-explicit-tag-without-child.json", Case{EP: "ctx509.ParseCertificate", Src: "hostile", Data: []byte{0x30, 0x04, 0x30, 0x02, 0xa0, 0x01}})
 	writeReplay(t, dir, "C01", "revocation", "finding-onecrl-null-record.json", Case{EP: "mozilla.Parse", Src: "hostile", Data: []byte(`{"data":[null]}`)})
 }
